@@ -4,4 +4,5 @@ MCMemberArgs == @MEMBERARGS@
 MCNewLists == @NEWLISTS@
 MCDelKeys == @DELKEYS@
 MCHdrs == @HDRS@
+MCOps == @OPS@
 =============================================================================
